@@ -19,6 +19,7 @@ import (
 	"github.com/influxdata/influxdb/v2/tsdb/engine/tsm1"
 	_ "github.com/influxdata/influxdb/v2/tsdb/index/tsi1"
 	"github.com/influxdata/influxql"
+	"go.uber.org/zap"
 
 	"verifharness/internal/model"
 )
@@ -39,6 +40,8 @@ type ShardFix struct {
 	Tweak func(*tsdb.EngineOptions)
 	// Background enables the engine's own background loops (wall-clock tiers).
 	Background bool
+	// Logger, if set, receives the store's and engine's log output (diagnostics).
+	Logger *zap.Logger
 }
 
 // DataDir / WALDir of the single shard.
@@ -57,6 +60,9 @@ func (f *ShardFix) Open() error {
 	st.EngineOptions.MonitorDisabled = true
 	if f.Tweak != nil {
 		f.Tweak(&st.EngineOptions)
+	}
+	if f.Logger != nil {
+		st.WithLogger(f.Logger)
 	}
 	if err := st.Open(context.Background()); err != nil {
 		return fmt.Errorf("store open: %w", err)
@@ -98,11 +104,20 @@ func (f *ShardFix) Reopen() error {
 }
 
 // Shard returns the shard.
-func (f *ShardFix) Shard() *tsdb.Shard { return f.Store.Shard(ShardID) }
+func (f *ShardFix) Shard() *tsdb.Shard {
+	if f.Store == nil {
+		return nil
+	}
+	return f.Store.Shard(ShardID)
+}
 
 // Engine returns the concrete tsm1 engine.
 func (f *ShardFix) Engine() (*tsm1.Engine, error) {
-	e, err := f.Shard().Engine()
+	sh := f.Shard()
+	if sh == nil {
+		return nil, errors.New("shard not open")
+	}
+	e, err := sh.Engine()
 	if err != nil {
 		return nil, err
 	}
@@ -230,6 +245,17 @@ func (it *seriesIter) Next() (tsdb.SeriesElem, error) {
 	return seriesElem{name: name, tags: tags}, nil
 }
 
+// NewSeriesIter returns a tsdb.SeriesIterator over explicit series keys (sorted first).
+func NewSeriesIter(seriesKeys []string) tsdb.SeriesIterator {
+	ks := append([]string(nil), seriesKeys...)
+	sort.Strings(ks)
+	it := &seriesIter{}
+	for _, k := range ks {
+		it.keys = append(it.keys, []byte(k))
+	}
+	return it
+}
+
 // DeleteRange deletes [min,max] (inclusive) of the given series keys ("m,tag=v" form) through
 // Shard.DeleteSeriesRange. Keys are sorted first (the engine requires sorted input).
 func (f *ShardFix) DeleteRange(seriesKeys []string, min, max int64) error {
@@ -351,7 +377,11 @@ func (f *ShardFix) ReadInfluxQL(seriesKey, field string, kind model.Kind, start,
 		Condition:  cond,
 		StartTime:  start, EndTime: end, Ascending: asc, Ordered: true,
 	}
-	itr, err := f.Shard().CreateIterator(context.Background(), &influxql.Measurement{Name: string(name)}, opt)
+	sh := f.Shard()
+	if sh == nil {
+		return nil, errors.New("shard not open")
+	}
+	itr, err := sh.CreateIterator(context.Background(), &influxql.Measurement{Name: string(name)}, opt)
 	if err != nil {
 		return nil, err
 	}
